@@ -506,9 +506,14 @@ def mixed_run(stream_chunks, payloads, keys, schedule, accepts):
         drawn = []
         orig = ws.get_mask_key
 
+        by_thread = {}
+
         def rec_key(n):
+            import threading
             k = orig(n)
             drawn.append(k)
+            t = b.by_ident.get(threading.get_ident())
+            by_thread.setdefault(t.tid if t is not None else -1, []).append(k)
             return k
         ws.get_mask_key = rec_key
         got = []
@@ -522,6 +527,9 @@ def mixed_run(stream_chunks, payloads, keys, schedule, accepts):
         for i, p in enumerate(payloads):
             b.spawn(i + 1, (lambda p=p: ws.send_binary(p)))
         eff = b.run(schedule, prestart=False)
+    # the steps of the SEND side: the yield points of the send lock and the transport writes
+    send_steps = [tid for tid, at, lk in b.steps if at == "send" or (at in ("acquire", "release", "released") and lk is ws.lock)]
+    mixed_run.last = (send_steps, by_thread)
     return bytes(sock.sent), eff, got, drawn
 
 
@@ -529,6 +537,7 @@ def run_mixed(ctx):
     """a receiver answering pings while other threads send under short writes: the pong is a send like any other."""
     rnd = ctx.rng("mixed")
     n = 1200 if ctx.thorough() else 260
+    cos = []
     for it in range(n):
         ns = rnd.randint(1, 2)
         payloads = [rx.payload(rnd, rnd.choice([1, 5, 20, 126, 300]), "bin") for _ in range(ns)]
@@ -545,6 +554,16 @@ def run_mixed(ctx):
             while len(sched) < 200:
                 sched += [rnd.randrange(ns + 1)] * rnd.randint(1, 12)
         wire, eff, got, drawn = mixed_run(chunks, payloads, keys, sched, acc)
+        # (C) co-simulation with the Lean programs model (C12_programs): the receiving thread is a thread whose program is the
+        # pongs, in the order of the pings; only the steps taken at send-side yield points count (its reads are not steps of
+        # the send-side model)
+        msched, by_thread = mixed_run.last
+        progs = [[simnet.srv_frame(10, p, 1, 0, k) for p, k in zip(pings, by_thread.get(0, []))]] + \
+                [[simnet.srv_frame(2, p, 1, 0, k)] for i, p in enumerate(payloads) for k in by_thread.get(i + 1, [])[:1]]
+        if len(progs) == ns + 1 and len(progs[0]) == len(pings):
+            cos.append(("m-threads-prog " + ".".join(",".join(f.hex() for f in fs) or "-" for fs in progs) + " " +
+                        (".".join(map(str, msched)) or "-") + " " + ".".join(map(str, acc)), common.summarize(wire),
+                        {"pings": [p.hex()[:20] for p in pings], "schedule": eff[:120]}))
         switches = sum(1 for a, b_ in zip(eff, eff[1:]) if a != b_)
         ctx.case(key=("mixed", it), nontrivial=switches > 1, cls=f"mixed:senders={ns}:pings={len(pings)}",
                  sample={"pings": [len(p) for p in pings], "payload_lens": [len(p) for p in payloads], "accepts": acc, "schedule": eff[:30]}
@@ -580,13 +599,19 @@ def run_mixed(ctx):
                         "the senders' frames and one pong per ping, each whole", wire.hex()[:240], size=len(eff) + len(wire))
         elif got != [b"M"]:
             ctx.violate("each-message-intact-to-exactly-one-receiver", "receiver-disturbed-by-senders", inp, "[b'M']", str(got)[:120], size=len(eff))
+    mo = common.run_driver_parallel([c[0] for c in cos])
+    for (mline, wsum, inp), m in zip(cos, mo):
+        ctx.traces_vs_impl += 1
+        mw, morder, mpcs = m.split("|")
+        if mw != wsum or set(mpcs) - {"d"}:
+            ctx.diverge("threads:mixed", dict(inp, op=mline[:300]), m[:300], wsum[:200])
 
 
 def run(ctx):
     ctx.rule = ("(a) every composition of the frame length as an accept pattern for frames of 6..10 bytes, sampled patterns for 125..100000 "
                 "bytes; (b) 2 threads x every schedule of length 9 (11), 3 threads x every schedule of length 6 (8), random 2-4 threads with "
                 "random payloads/patterns/schedules, co-simulated with the Lean interleaving model; (c) 2-3 receiver threads, fragmented "
-                "messages with control frames, random schedules, the Lean receivers model driven by the observed lock-acquisition order; (d) one receiver answering 1-3 pings while 1-2 threads send under short writes; (a') the short-write sends again on an object equipped with a dispatcher; (b') 2-4 threads each sending 0-3 frames (send_binary / ping / pong), 2 threads x every schedule of length 10 (12), co-simulated with the Lean programs model at yield-point granularity; the library's own locks are scheduled (none assigned by the harness). non-trivial = more than one piece / more than one context switch")
+                "messages with control frames, random schedules, the Lean receivers model driven by the observed lock-acquisition order; (d) one receiver answering 1-3 pings while 1-2 threads send under short writes, co-simulated with the Lean programs model (the receiver = a thread whose program is the pongs); (a') the short-write sends again on an object equipped with a dispatcher; (b') 2-4 threads each sending 0-3 frames (send_binary / ping / pong), 2 threads x every schedule of length 10 (12), co-simulated with the Lean programs model at yield-point granularity; the library's own locks are scheduled (none assigned by the harness). non-trivial = more than one piece / more than one context switch")
     run_short_writes(ctx)
     run_eagain(ctx)
     run_senders(ctx)
